@@ -30,9 +30,9 @@ ASSUMPTIONS = [
     "distinct Options objects do not share their group/context dict objects (Feature('a', d) and Feature('b', d) alias d: not modelled)",
     "Options.group / Options.context are mutated only through the class' methods (direct item assignment can break the invariant and is outside the op alphabet)",
     "next(iter(group)) in the grouping function is modelled as the first inserted member; theorems hold for any choice function",
+    "CPython dict keyed by similarity_key(): lookup finds the stored key that is == (equal keys hash equal: C15.similarity_key_eq_hash_coherent); modelled as 'first stored key that is =='",
 ]
 
-FINDING_COLLISION = "group-options-unequal-with-equal-hash"
 FINDING_FEATHASH = "feature-hash-rewrites-child-in_features-with-Feature-objects"
 
 # --------------------------------------------------------------------------------------------------
@@ -1093,15 +1093,8 @@ def grouping_oracle(ctx: Ctx, suite: str, case: Any, feats: List[Any], groups: L
         return base_agree(i, j) and (same_level is None or same_level(i, j))
 
     def cls(i: int, j: int, apart: bool) -> Optional[str]:
-        if options_collide(feats[i], feats[j]):
-            return FINDING_COLLISION
-        if apart:
-            # an agreeing pair is torn apart when one of the two was pulled into the group of a colliding option set
-            # (possibly on another dependency level): the colliding partner is among the features of this very set
-            for x in (i, j):
-                for y in range(len(feats)):
-                    if y != x and options_collide(feats[x], feats[y]):
-                        return FINDING_COLLISION
+        # no known finding covers the grouping any more: since dc1e740 the dictionary is keyed by the key value, so option
+        # sets that merely hash equal ({'x': -1}/{'x': -2}, [1]/(1,), dict/sorted item tuple) must be separated
         return None
 
     n = len(feats)
@@ -1136,19 +1129,105 @@ def grouping_oracle(ctx: Ctx, suite: str, case: Any, feats: List[Any], groups: L
                           {"groups": groups}, "together (an undeclared type agrees with any)", finding_class=cls(u, typed[0], True))  # fmt: skip
 
 
-def suite_grouping(ctx: Ctx) -> None:
+# regression corpus (runs first): option sets that are != but hash equal.  Fixed by dc1e740 ("group features by their
+# similarity key, not by its hash value"); before it these pairs were planned into ONE calculation.
+COLLISION_PAIRS = [
+    ({"x": -1}, {"x": -2}),
+    ({"x": [1]}, {"x": (1,)}),
+    ({"x": {"q": 1}}, {"x": (("q", 1),)}),
+    ({"k": "v", "x": -1}, {"x": -2, "k": "v"}),
+    ({"x": (-1, [2])}, {"x": [-2, (2,)]}),
+]
+
+
+def j_gfeature(f: Any, reg: Reg) -> Dict[str, Any]:
+    return {"name": f.name.name, "options": state_of(f.options, reg), "domain": None,
+            "cfw": None if f.compute_frameworks is None else [reg.obj(c) for c in f.compute_frameworks],
+            "dtype": None if f.data_type is None else reg.obj(f.data_type), "child": None}  # fmt: skip
+
+
+def grouping_cases(ctx: Ctx, suite: str, sets: List[List[Any]]) -> None:
+    """run the real grouping function on each feature set; oracle; model partition; key-equality and hash ties"""
     from mloda.core.prepare.execution_plan import ExecutionPlan
+
+    ep = ExecutionPlan()
+    reg = Reg()
+    reqs, impls, key_reqs, key_real, sim_reqs, sim_real = [], [], [], [], [], []
+    for feats in sets:
+        S = set(feats)
+        order = list(S)
+        try:
+            case = {"features": [{"name": f.name.name, "group": enc_dict(f.options.group, reg), "context": enc_dict(f.options.context, reg),
+                                  "cfw": None if f.compute_frameworks is None else sorted(c.__name__ for c in f.compute_frameworks),
+                                  "dtype": None if f.data_type is None else f.data_type.name} for f in order]}  # fmt: skip
+            jfs = [j_gfeature(f, reg) for f in order]
+        except Unmodellable:
+            continue
+        real = ep.group_features_by_compute_framework_and_options(S)
+        idx = {id(f): i for i, f in enumerate(order)}
+        groups = sorted(sorted(idx[id(f)] for f in g) for g in real.values())
+        mixes = len({cjson(x["group"]) for x in case["features"]}) > 1 and any(x["context"] for x in case["features"])
+        collides = any(options_collide(a, b) for a in order for b in order)
+        ctx.case(suite, case, mixes or collides, grouping_n=len(order), grouping_groups=len(groups), hash_collision_present=collides)
+        grouping_oracle(ctx, suite, case, order, groups)
+        reqs.append({"op": "C15.group", "features": jfs})
+        impls.append((case, groups))
+        # ties of the key formula: (a) the model's key tuples are == exactly when the real keys are; (b) the model's hashed
+        # tuples, re-hashed by CPython, are has_similarity_properties() / base_similarity_properties()
+        for a, b in [(0, 1), (0, len(order) - 1)]:
+            if a != b and b < len(order) and hasattr(order[a], "similarity_key"):
+                fa, fb = order[a], order[b]
+                key_reqs.append({"op": "C15.keyEq", "a": jfs[a], "b": jfs[b]})
+                key_real.append({"simEq": bool(fa.similarity_key() == fb.similarity_key()), "baseEq": bool(fa.base_similarity_key() == fb.base_similarity_key())})
+        for k, f in enumerate(order[:2]):
+            sim_reqs.append({"op": "C15.sim", "f": jfs[k]})
+            sim_real.append((f.has_similarity_properties(), f.base_similarity_properties()))
+    outs = ctx.lean.batch(reqs)
+    for (case, groups), o_ in zip(impls, outs):
+        mg = sorted(sorted(g) for g in o_.get("groups", []))
+        if mg != groups:
+            ctx.disagree(suite, case, groups, mg)
+    outs = ctx.lean.batch(key_reqs)
+    for r_, real_, o_ in zip(key_reqs, key_real, outs):
+        if real_ != {"simEq": o_.get("simEq"), "baseEq": o_.get("baseEq")}:
+            ctx.disagree(suite, r_, real_, o_)
+    outs = ctx.lean.batch(sim_reqs)
+    for r_, (hs, hb), o_ in zip(sim_reqs, sim_real, outs):
+        try:
+            ms, mb = hash(dec(o_["sim"], reg)), hash(dec(o_["base"], reg))
+        except Unmodellable:
+            continue
+        if (ms, mb) != (hs, hb):
+            ctx.disagree(suite, r_, [hs, hb], [ms, mb])
+
+
+def corpus_feature_sets() -> List[List[Any]]:
+    from mloda.core.abstract_plugins.components.feature import Feature
+    from mloda.core.abstract_plugins.components.options import Options
+    from mloda.core.abstract_plugins.components.data_types import DataType
+
+    sets = []
+    for ga, gb in COLLISION_PAIRS:
+        for ta, tb in [(None, None), (DataType.INT64, DataType.INT64), (DataType.INT64, None), (None, DataType.INT32)]:
+            a = Feature("a", Options(group=copy.deepcopy(ga), context={"c": 1}), data_type=ta)
+            b = Feature("b", Options(group=copy.deepcopy(gb)), data_type=tb)
+            c = Feature("c", Options(group=copy.deepcopy(ga), context={"c": 2}), data_type=ta)
+            for f in (a, b, c):
+                f.compute_frameworks = {F.PyArrowTable}
+            sets.append([a, b, c])
+    return sets
+
+
+def suite_grouping(ctx: Ctx) -> None:
     from mloda.core.abstract_plugins.components.feature import Feature
     from mloda.core.abstract_plugins.components.options import Options
     from mloda.core.abstract_plugins.components.data_types import DataType
 
     rng = ctx.rng
-    ep = ExecutionPlan()
-    reg = Reg()
     n = ctx.budget(1500, 30000)
     fws = [F.PyArrowTable, F.PandasDataFrame, F.PythonDictFramework]
     dts = [DataType.INT32, DataType.INT64, DataType.STRING]
-    reqs, impls, sim_reqs, sim_real = [], [], [], []
+    sets = []
     for _ in range(n):
         base = gen_dict(rng, 1, rng.randint(0, 2), special=0.05)
         for k in ("domain", "compute_framework"):
@@ -1176,41 +1255,8 @@ def suite_grouping(ctx: Ctx) -> None:
             r = rng.random()
             f.compute_frameworks = {fws[0]} if r < 0.6 else ({fws[1]} if r < 0.8 else (None if r < 0.9 else {fws[0], fws[2]}))
             feats.append(f)
-        S = set(feats)
-        order = list(S)
-        try:
-            case = {"features": [{"name": f.name.name, "group": enc_dict(f.options.group, reg), "context": enc_dict(f.options.context, reg),
-                                  "cfw": None if f.compute_frameworks is None else sorted(c.__name__ for c in f.compute_frameworks),
-                                  "dtype": None if f.data_type is None else f.data_type.name} for f in order]}  # fmt: skip
-        except Unmodellable:
-            continue
-        real = ep.group_features_by_compute_framework_and_options(S)
-        idx = {id(f): i for i, f in enumerate(order)}
-        groups = sorted(sorted(idx[id(f)] for f in g) for g in real.values())
-        mixes = len({cjson(x["group"]) for x in case["features"]}) > 1 and any(x["context"] for x in case["features"])
-        ctx.case("grouping", case, mixes, grouping_n=len(order), grouping_groups=len(groups))
-        grouping_oracle(ctx, "grouping", case, order, groups)
-        reqs.append({"op": "C15.group", "features": [{"id": i, "typed": f.data_type is not None, "sim": str(f.has_similarity_properties()), "base": str(f.base_similarity_properties())} for i, f in enumerate(order)]})
-        impls.append((case, groups))
-        for f in order[:2]:
-            jf = {"name": f.name.name, "options": state_of(f.options, reg), "domain": None,
-                  "cfw": None if f.compute_frameworks is None else [reg.obj(c) for c in f.compute_frameworks],
-                  "dtype": None if f.data_type is None else reg.obj(f.data_type), "child": None}  # fmt: skip
-            sim_reqs.append({"op": "C15.sim", "f": jf})
-            sim_real.append((f.has_similarity_properties(), f.base_similarity_properties()))
-    outs = ctx.lean.batch(reqs)
-    for r_, (case, groups), o_ in zip(reqs, impls, outs):
-        mg = sorted(sorted(g) for g in o_.get("groups", []))
-        if mg != groups:
-            ctx.disagree("grouping", case, groups, mg)
-    outs = ctx.lean.batch(sim_reqs)
-    for r_, (hs, hb), o_ in zip(sim_reqs, sim_real, outs):
-        try:
-            ms, mb = hash(dec(o_["sim"], reg)), hash(dec(o_["base"], reg))
-        except Unmodellable:
-            continue
-        if (ms, mb) != (hs, hb):
-            ctx.disagree("grouping", r_, [hs, hb], [ms, mb])
+        sets.append(feats)
+    grouping_cases(ctx, "grouping", sets)
 
 
 def suite_levels(ctx: Ctx) -> None:
@@ -1334,7 +1380,7 @@ def listed_protected(own: Dict[Any, Any]) -> Set[str]:
     return {"in_features"} | ({kstr(x) for x in v} if v else set())
 
 
-def suite_e2e(ctx: Ctx) -> None:
+def suite_e2e(ctx: Ctx, corpus_only: bool = False) -> None:
     from mloda.user import mloda, Feature, Options
     from mloda.core.abstract_plugins.components.data_types import DataType
     import mloda_plugins.compute_framework.base_implementations.pandas.pandaspyarrowtransformer  # noqa: F401
@@ -1344,17 +1390,27 @@ def suite_e2e(ctx: Ctx) -> None:
     n = ctx.budget(1000, 20000)
     PA, PD = F.PyArrowTable, F.PandasDataFrame
     timeouts = 0
-    for _case in range(n):
+    # regression corpus first: the colliding option sets, requested on derived features and directly on the roots
+    corpus: List[Optional[Dict[str, Any]]] = []
+    for ga, gb in COLLISION_PAIRS:
+        for names, dt in [(("d0", "d1"), None), (("r0", "r1"), None), (("d0", "d1"), "INT64"), (("d0", "d0"), None)]:
+            corpus.append({"derived": {"d0": {"parents": ["r0"], "expr": ["col", "r0"]}, "d1": {"parents": ["r1"], "expr": ["col", "r1"]}},
+                           "request": [{"name": names[0], "group": copy.deepcopy(ga), "context": {"c": 1}, "prop": [], "dtype": dt, "fw": "PyArrowTable"},
+                                       {"name": names[1], "group": copy.deepcopy(gb), "context": {}, "prop": [], "dtype": dt, "fw": "PyArrowTable"},
+                                       {"name": "d1" if names[0] != "r0" else "r2", "group": copy.deepcopy(ga), "context": {"c": 2}, "prop": [], "dtype": None, "fw": "PyArrowTable"}]})  # fmt: skip
+    for fixed in (corpus if corpus_only else [None] * n):
         calls: List[List[Obs]] = []
 
         def hook(cls: Any, data: Any, features: Any) -> None:
             idx = len(calls)
             calls.append([Obs(f, cls.__name__, idx) for f in features.features])
 
-        mode = rng.choice(["deep", "deep", "flat", "own"])
+        mode = rng.choice(["deep", "deep", "flat", "own"]) if fixed is None else "corpus"
         roots = ["r0", "r1", "r2"]
         derived: Dict[str, Dict[str, Any]] = {}
-        if mode == "own":
+        if fixed is not None:
+            derived = copy.deepcopy(fixed["derived"])
+        elif mode == "own":
             chain = ["r0"] + [f"d{i}" for i in range(rng.randint(1, 3))]
             for a, b in zip(chain[1:], chain[:-1]):
                 derived[a] = {"parents": [b], "expr": ["add", ["col", b], ["const", 1]]}
@@ -1386,7 +1442,9 @@ def suite_e2e(ctx: Ctx) -> None:
         gpal = rng.sample(gpal, rng.randint(1, min(3, len(gpal))))
         cpal = [({}, frozenset()), ({"c": 1}, frozenset()), ({"c": 2}, frozenset()), ({"c": 1, "s": 7}, frozenset({"s"}))]
         req_specs = []
-        if mode == "own":
+        if fixed is not None:
+            req_specs = copy.deepcopy(fixed["request"])
+        elif mode == "own":
             g = rng.choice([{"g": 1}, {"g": 1, "in_features": "zz"}, {}])
             c, pr = rng.choice(cpal)
             req_specs.append({"name": top, "group": g, "context": c, "prop": sorted(pr), "dtype": None, "fw": None})
@@ -1413,7 +1471,7 @@ def suite_e2e(ctx: Ctx) -> None:
             seen.append(f)
             feats.append(f)
         req_specs = [rs for rs, _ in zip(req_specs, range(10**6))]
-        fwset = {PA, PD} if mode == "flat" else {PA}
+        fwset = {PA, PD} if mode in ("flat", "corpus") else {PA}
         case = {"mode": mode, "derived": {k: {"parents": v["parents"], "parent_opts": {p: repr(o) for p, o in (v.get("parent_opts") or {}).items()}} for k, v in derived.items()},
                 "request": [{**rs, "group": repr(rs["group"]), "context": repr(rs["context"])} for rs in req_specs]}  # fmt: skip
 
@@ -1473,7 +1531,7 @@ def suite_e2e(ctx: Ctx) -> None:
             signal.alarm(0)
             signal.signal(signal.SIGALRM, old_handler)
         mixes = len({repr(rs["group"]) for rs in req_specs}) > 1 and len({repr(rs["context"]) for rs in req_specs}) > 1
-        ctx.case("e2e", case, mixes or mode == "own", e2e_mode=mode, e2e_outcome=outcome.split(":")[0], e2e_calls=len(calls))
+        ctx.case("e2e", case, mixes or mode in ("own", "corpus"), e2e_mode=mode, e2e_outcome=outcome.split(":")[0], e2e_calls=len(calls))
         if outcome == "timeout":
             timeouts += 1
             ctx.violation("e2e", {**case, "calls": [[o.j() for o in c_] for c_ in calls]}, f"run_all did not terminate within {E2E_TIMEOUT_S} s", "timeout", "terminates")
@@ -1553,6 +1611,9 @@ def run(ctx: Ctx) -> None:
         "ident/pyeq: the pair is ==; mh: the value is a container; grouping: the set mixes group variations and carries context; "
         "levels: some intra-group dependency; e2e: the request mixes >=2 group and >=2 context variations (or tests input-feature own options)"
     )
+    # regression corpus first (hash-colliding option sets: fixed by dc1e740, see COLLISION_PAIRS)
+    grouping_cases(ctx, "corpus_grouping", corpus_feature_sets())
+    suite_e2e(ctx, corpus_only=True)
     suite_values(ctx)
     suite_ops(ctx)
     suite_ident(ctx)
